@@ -322,6 +322,8 @@ type M struct {
 	Arena *Arena
 	Off   int
 	Cell  *Cell
+
+	kidx *keyIdx // lookup cache of big maps, see keyIndex
 }
 
 // Arena is one backing array.
@@ -998,12 +1000,35 @@ func SameStorage(m *M) *M {
 }
 
 func (m *M) keyIndex(k any) int {
+	if len(m.Keys) > 24 {
+		// big maps (sized pools): an index, valid as long as the key slice is the one it was
+		// built from (keys are never overwritten in place; every change re-slices or re-allocates)
+		if ix := m.kidx; ix == nil || ix.n != len(m.Keys) || ix.first != &m.Keys[0] {
+			ix = &keyIdx{n: len(m.Keys), first: &m.Keys[0], at: make(map[any]int, len(m.Keys))}
+			for i, x := range m.Keys {
+				if _, dup := ix.at[x]; !dup {
+					ix.at[x] = i
+				}
+			}
+			m.kidx = ix
+		}
+		if i, ok := m.kidx.at[k]; ok {
+			return i
+		}
+		return -1
+	}
 	for i, x := range m.Keys {
 		if x == k {
 			return i
 		}
 	}
 	return -1
+}
+
+type keyIdx struct {
+	n     int
+	first *any
+	at    map[any]int
 }
 
 // Rerepr returns a copy that denotes the same value in another representation: nil vs empty
